@@ -29,6 +29,8 @@ class Ob:
     grids = tuple(GRIDS)
     functions = ()          # qualified names of the real functions under this contract clause
     canary = False          # a deliberately false clause that must be refuted
+    uf_congruence = False   # send sin/exp/log/psi to the solver as uninterpreted functions (needed only where two
+                            # syntactically different arguments must be recognised as equal)
     tol_scale = 1.0
 
     def setup(self, w):
@@ -109,6 +111,7 @@ def reset_ctx():
 def run_symbolic(ob, grid, timeout_ms=20000, max_leaves=3000):
     """-> dict(status, leaves, results, counterexample, error)"""
     reset_ctx()
+    prove.USE_UF[0] = bool(ob.uf_congruence)
     t0 = time.time()
     out = dict(oid=ob.oid(grid), status=None, nleaves=0, results=[], cex=None, error=None, seconds=0.0,
                lia=0, backends={})
